@@ -7,7 +7,7 @@ M = 2 ** 256
 THEOREMS = ["Norm.mkBin_sound", "Norm.mkUn_sound", "Norm.mkTer_sound", "Norm.mkEnv1_sound", "norm_sound",
             "norm3_sound", "equiv_norm3_sound", "BinOp.comm_sound", "Word.wpow_eq", "Word.mul_shl_one",
             "Word.div_shl_one", "Word.and_shl_shl", "Word.iszero_sub", "Word.iszero_xor", "Word.two_exp",
-            "Word.zero_exp"]
+            "Word.zero_exp", "RuleTable.generated_rules_certified"]
 SHAPES = [0, 1, 2, 5, 2 ** 160 - 1, 2 ** 255, M - 1, "s(0)", "s(1)"]
 GRID = [0, 1, 2, 3, 31, 32, 255, 256, 2 ** 160 - 1, 2 ** 255 - 1, 2 ** 255, M - 2, M - 1]
 FUNCT = {"+": "ADD", "-": "SUB", "*": "MUL", "/": "DIV", "^": "EXP", "and": "AND", "or": "OR", "xor": "XOR",
@@ -101,7 +101,7 @@ def combine_with_result(text, out_items):
 def run(tier):
     sd = common.seed()
     rng = random.Random(sd * 104729 + 3)
-    po = common.proof_obligations("GasolVerif.Proofs.NormSound", THEOREMS)
+    po = common.proof_obligations("GasolVerif.Proofs.NormSound,GasolVerif.Props.RuleTable", THEOREMS)
     violations = [{"kind": "broken-proof-obligation", "what": b, "no_failing_input": True, "input": b} for b in po["broken"]]
     c = Counter()
     # ---- (a) shape-exhaustive table of apply_transform; (b) folding tables; (d) opcode round trip
